@@ -6,6 +6,7 @@ import (
 	"encoding/xml"
 	"fmt"
 	"net/url"
+	"runtime/debug"
 	"sort"
 	"strconv"
 	"strings"
@@ -663,6 +664,13 @@ func (c *c06ctx) runCase(fx *fixture, lc listCase) {
 	} else {
 		wantItems, wantCPs = refList(rows, prefix, delim, lc.Marker, lc.IDMarker)
 	}
+	defer func() {
+		if p := recover(); p != nil {
+			msg := fmt.Sprint(p)
+			c.violate("panic:"+sigAPI(lc.API), fmt.Sprintf("%s prefix=%q delimiter=%q page-size=%d panicked: %s", lc.API, prefix, delim, lc.PageSize, msg),
+				c06Witness{KeySet: fx.spec, Case: lc, Note: "panic: " + msg + "\n" + string(debug.Stack())})
+		}
+	}()
 	// page through
 	var gotItems []row
 	var gotCPs []string
